@@ -492,7 +492,15 @@ func c11YieldLogger(seed uint64) trlog.Logger {
 	r := hx.NewRNG(seed)
 	yield := func() {
 		mu.Lock()
-		d := time.Duration(r.Range(1, 40)) * time.Microsecond
+		var d time.Duration
+		switch r.Intn(3) {
+		case 0:
+			d = time.Duration(r.Range(1, 40)) * time.Microsecond
+		case 1:
+			d = time.Duration(r.Range(100, 2000)) * time.Microsecond
+		default: // long enough to span other runs' sends (send delay 10 ms)
+			d = time.Duration(r.Range(2000, 15000)) * time.Microsecond
+		}
 		mu.Unlock()
 		time.Sleep(d)
 	}
@@ -847,6 +855,18 @@ func c11GenScenario(r *hx.RNG, kind string) c11Scenario {
 			}
 			sc.Runs = append(sc.Runs, run)
 		}
+	case "burst":
+		// several runs of the variants that log between building a probe and writing it (ICMP, SACK),
+		// started within the same two milliseconds, always with the yielding logger: their sends interleave
+		sc.Yield = true
+		for i, n := 0, r.Range(3, 5); i < n; i++ {
+			v := hx.Pick(r, []string{"icmp4", "icmp4", "sack", "udp4"})
+			kd := strings.TrimRight(v, "46")
+			min, max := c11TTLs(r)
+			run := g.run(v, hx.Pick(r, c11Targets), c11DefaultPort(kd, r), min, max, r.Bool())
+			run.Start = time.Duration(r.Range(0, 2000)) * time.Microsecond
+			sc.Runs = append(sc.Runs, run)
+		}
 	case "alias256":
 		// relaxed source checking, same target, identifiers that agree MODULO 256 (and modulo 65536)
 		// only: SACK initial sequence numbers 256·k apart, TCP id bases 256·k apart, echo identifiers
@@ -971,7 +991,7 @@ func c11ScenarioJSON(sc c11Scenario, shared, solo []string, foreign []int) map[s
 
 func c11Isolation(t *testing.T, rep *hx.Report, orc *hx.Oracle, rng *hx.RNG, env hx.Env) {
 	n := env.Scale(3000, 60000)
-	kinds := []string{"mixed", "mixed", "mixed", "request", "request", "aligned", "aligned", "overlap", "f11", "alias256"}
+	kinds := []string{"mixed", "mixed", "mixed", "request", "request", "aligned", "aligned", "overlap", "f11", "alias256", "burst", "burst"}
 	var scs []c11Scenario
 	for i := 0; i < n; i++ {
 		scs = append(scs, c11GenScenario(rng.Fork(), kinds[i%len(kinds)]))
